@@ -45,7 +45,7 @@ var c01Spellings = []enum.Spelling{
 	{Unit: "  ", Bullets: []byte("-"), Heading: true},
 }
 
-var hostileNames = []string{"a", "- x", "*", "é日本", " a", "a ", "a-b", "+x*", "#h", "a  b", "└── x", "│   y", "a\tb", "100%d", "<&>\"", "p ├── └── q", "C#", "e\u0301x", "a\xffb"} // incl. names that look like branches, format verbs, markup
+var hostileNames = []string{"a", "- x", "*", "é日本", " a", "a ", "a-b", "+x*", "#h", "a  b", "└── x", "│   y", "a\tb", "100%d", "<&>\"", "p ├── └── q", "C#", "e\u0301x", "a\xffb", "--", "* *"} // incl. names that look like branches, format verbs, markup
 
 type c01Replay struct {
 	Kind  string     `json:"kind"`
@@ -175,6 +175,10 @@ func init() {
 				c01One(c, d1, n1, c01Spellings[0], fmtTuples[fi])
 				c01One(c, d2, n2, c01Spellings[1], fmtTuples[fi])
 			}
+			// wide indentation units: the same depth reaches 4 and 8 times as many columns
+			c01One(c, d2, n2, c01Spellings[2], fmtTuples[0])
+			c01One(c, d1, n1, enum.Spelling{Unit: "        ", Bullets: []byte("-")}, fmtTuples[0])
+			c01One(c, d2, n2, enum.Spelling{Unit: " ", Bullets: []byte("*")}, fmtTuples[1])
 		}
 		for r := 1; r <= maxR && !c.Expired(); r++ {
 			if !c.Take() {
